@@ -360,6 +360,12 @@ func (e *Env) selector(x *ESel) Val {
 	if l == nil {
 		return e.fail("no field %s in %s", x.Sel, exprString(x.X))
 	}
+	if l.Typ != nil {
+		if _, inline := l.Typ.Underlying().(*types.Struct); inline && l.Kind == LComp {
+			// a struct stored inline: designate it, its fields are selected next
+			return locVal(l, types.NewPointer(l.Typ))
+		}
+	}
 	return r.load(e.state(), l)
 }
 
@@ -510,6 +516,32 @@ func (e *Env) call(x *ECall) Val {
 		j := e.term(e.eval(x.Args[1]))
 		comp, _ := r.elemComp(types.Typ[types.Uint8])
 		return termVal(Select(Select(r.heapGet(e.state(), comp), b), j), types.Typ[types.Uint8])
+	case "memold":
+		// memold(s, j): s is evaluated in the pre-state and its backing array is read in the pre-state; j is an
+		// absolute position evaluated in the current environment
+		if !argN(2) {
+			return e.fail("memold")
+		}
+		ne := *e
+		ne.inOld = true
+		ne.fr = nil
+		v := ne.eval(x.Args[0])
+		if ne.err != nil && e.err == nil {
+			e.err = ne.err
+		}
+		j := e.term(e.eval(x.Args[1]))
+		var et types.Type = types.Typ[types.Uint8]
+		if v.Typ != nil {
+			if s, ok := v.Typ.Underlying().(*types.Slice); ok {
+				et = s.Elem()
+			}
+		}
+		comp, _ := r.elemComp(et)
+		ost := e.old
+		if ost == nil {
+			ost = e.st
+		}
+		return termVal(Select(Select(r.heapGet(ost, comp), slBase(e.term(v))), j), et)
 	case "seg":
 		// seg(a, i, b, j, n): a[i..i+n) == b[j..j+n) pointwise; a is read in the current state, b too
 		if !argN(5) {
@@ -572,6 +604,17 @@ func (e *Env) call(x *ECall) Val {
 			t = slBase(t)
 		}
 		return termVal(Gt(t, r.heapGet(e.old, "$top")), boolT)
+	case "alloc":
+		// alloc(p): p designates an object that exists in the current state (or is nil)
+		if !argN(1) {
+			return e.fail("alloc")
+		}
+		v := e.eval(x.Args[0])
+		t := e.term(v)
+		if t.Sort == SSlice {
+			t = slBase(t)
+		}
+		return termVal(Le(t, r.heapGet(e.state(), "$top")), boolT)
 	case "tag":
 		v := e.eval(x.Args[0])
 		return termVal(ifTag(e.term(v)), intT)
@@ -776,4 +819,36 @@ func (r *Run) specLoc(e *Env, x Expr) *Loc {
 		}
 	}
 	return nil
+}
+
+// evalBoolParts evaluates a clause and returns its top-level conjuncts (through && and predicate calls), so that
+// each becomes its own, smaller obligation.
+func (e *Env) evalBoolParts(x Expr) []Term {
+	switch x := x.(type) {
+	case *EBinary:
+		if x.Op == "&&" {
+			return append(e.evalBoolParts(x.X), e.evalBoolParts(x.Y)...)
+		}
+	case *ECall:
+		if id, ok := x.Fun.(*EIdent); ok {
+			if p := e.r.lookupPred(e.specPkg, id.Name); p != nil && len(p.Params) == len(x.Args) {
+				ne := *e
+				ne.vars = make(map[string]Val, len(e.vars)+len(p.Params))
+				for k, v := range e.vars {
+					ne.vars[k] = v
+				}
+				for i, prm := range p.Params {
+					ne.vars[prm.Name] = e.eval(x.Args[i])
+				}
+				ne.fr = nil
+				ne.oldVars = nil
+				parts := ne.evalBoolParts(p.Body)
+				if ne.err != nil && e.err == nil {
+					e.err = fmt.Errorf("in predicate %s: %v", id.Name, ne.err)
+				}
+				return parts
+			}
+		}
+	}
+	return []Term{e.evalBool(x)}
 }
